@@ -820,12 +820,12 @@ func CLIExitChain(p *core.Program, r *core.Report, rule string) {
 		}
 		info := fd.Pkg.TypesInfo
 		var runE *ast.FuncLit
-		ast.Inspect(fd.Decl.Body, func(n ast.Node) bool {
-			if kv, ok := n.(*ast.KeyValueExpr); ok && core.ExprStr(kv.Key) == "RunE" {
-				runE, _ = ast.Unparen(kv.Value).(*ast.FuncLit)
+		// (in the literal of the command or assigned to its field afterwards)
+		for _, fw := range FieldWrites(info, fd.Decl.Body) {
+			if fw.Field.Name() == "RunE" {
+				runE, _ = ast.Unparen(fw.Value).(*ast.FuncLit)
 			}
-			return true
-		})
+		}
 		construct := fd.Key() + ": RunE returns the error of " + sp.run
 		if runE == nil {
 			r.Bad(rule, construct, p.Pos(fd.Decl.Pos()), "no RunE function literal")
